@@ -892,8 +892,16 @@ def check_percent_halfwidth(run, ix):
     lo = [k for k, v in conv.items() if v == 'round_floor']
     hi = [k for k, v in conv.items() if v == 'round_ceiling']
     muls = [c for c in _walk_own(f.node) if isinstance(c, ast.Call) and norm(c.func) == 'mpf_mul']
-    if not muls or not lo or not hi:
-        raise AnalysisError('mpi_from_str_a_b: percent product / centre conversions not found')
+    if not muls:
+        raise AnalysisError('mpi_from_str_a_b: percent product not found')
+    if not lo or not hi:
+        cs = [a for a in _walk_own(f.node) if isinstance(a, ast.Assign) and isinstance(a.value, ast.Call) and
+              norm(a.value.func) == 'from_str' and a.value.args and norm(a.value.args[0]) == f.params[0]]
+        run.fail(Finding('C-R2x', LIBMPI, 'mpi_from_str_a_b', norm(cs[0]) if cs else 'def mpi_from_str_a_b',
+                         'the centre text is not converted once with round_floor and once with round_ceiling: there is '
+                         'no enclosure of the centre to build the endpoints and the percent half-width from (a single '
+                         'conversion, in whatever mode, lies on one side of the denoted number)', line=f.lineno))
+        return
     for m in muls:
         a0 = m.args[0]
         ok = isinstance(a0, ast.Call) and norm(a0.func) in ('MAX', 'max') and len(a0.args) == 2 and \
